@@ -444,10 +444,34 @@ fn trace_counting(
     non_root_list: &mut LinkedList,
     queue: &mut LinkedQueue,
 ) {
+    /// If a panic happens while there are still objects inside possible_cycles, their tracing counter
+    /// may have already been incremented by CcBox::trace. Reset it, since the next collection
+    /// expects the tracing counter of every object inside possible_cycles to be 0.
+    struct ResetTracingCountersGuard<'a> {
+        possible_cycles: &'a PossibleCycles,
+    }
+
+    impl Drop for ResetTracingCountersGuard<'_> {
+        #[inline]
+        fn drop(&mut self) {
+            let mut next = self.possible_cycles.first();
+            while let Some(ptr) = next {
+                unsafe {
+                    ptr.as_ref().counter_marker().reset_tracing_counter();
+                    next = *ptr.as_ref().get_next();
+                }
+            }
+        }
+    }
+
+    let reset_guard = ResetTracingCountersGuard { possible_cycles };
+
     while let Some(ptr) = possible_cycles.remove_first() {
         // The tracing counter has already been reset by add_to_list(...)
         __trace_counting(ptr, root_list, non_root_list, queue);
     }
+
+    mem::forget(reset_guard); // possible_cycles is empty now
 
     while let Some(ptr) = queue.poll() {
         // The tracing counter has already been reset by CcBox::trace when ptr was inserted into the queue
